@@ -365,3 +365,91 @@ Proof.
     exact (zix_normal_k_plain (c :: s') 0 (c :: s') (or_introl eq_refl) ltac:(discriminate) eq_refl Hrel Hc HW Hrel
              (elems_unfold _) Hfld Hlast).
 Qed.
+
+(* ---- `plain` is closed under std_normal; idempotence of the model on `plain` -------------------- *)
+Lemma fields_split : forall p q, fields (p ++ SEP :: q) = fields p ++ fields q.
+Proof.
+  induction p as [|c p IH]; intro q.
+  - cbn [app fields]. rewrite Z.eqb_refl. reflexivity.
+  - cbn [app fields]. rewrite IH. destruct (c =? SEP); [reflexivity|].
+    pose proof (fields_nonnil p) as N. destruct (fields p) as [|f fs]; [congruence|]. reflexivity.
+Qed.
+
+Lemma ends_sep_dot_split : forall t, ends_sep_dot t = true -> exists p, t = p ++ [SEP; DOT].
+Proof.
+  induction t as [|a t IH]; intro H; [discriminate|].
+  destruct t as [|b [|c t']]; [discriminate| |].
+  - cbn in H. apply andb_true_iff in H as [H1 H2]. apply Z.eqb_eq in H1, H2. subst. exists []. reflexivity.
+  - change (ends_sep_dot (a :: b :: c :: t')) with (ends_sep_dot (b :: c :: t')) in H.
+    destruct (IH H) as (p & E). exists (a :: p). rewrite E. reflexivity.
+Qed.
+
+Lemma ends_sep_dot_elem : forall t, ends_sep_dot t = true -> In [DOT] (elems t).
+Proof.
+  intros t H. destruct (ends_sep_dot_split t H) as (p & ->).
+  apply In_fields_elems; [|discriminate]. rewrite fields_split. apply in_or_app. right. left. reflexivity.
+Qed.
+
+Lemma nds_not_A : forall t, no_double_sep t = true -> class_A t = false.
+Proof.
+  intros t H. destruct t as [|a [|b t']]; [reflexivity|reflexivity|].
+  change (no_double_sep (a :: b :: t')) with (negb ((a =? SEP) && (b =? SEP)) && no_double_sep (b :: t')) in H.
+  apply andb_true_iff in H as [H _]. apply negb_true_iff in H. exact H.
+Qed.
+
+Lemma std_normal_c_string : forall s, c_string s -> c_string (std_normal s).
+Proof.
+  intros s Hc. destruct s as [|c s']; [constructor|].
+  set (s := c :: s') in *. change (std_normal s) with (render (has_root s) (normal_elems (has_root s) (elems s))).
+  assert (Forall (Forall (fun x => x <> 0)) (normal_elems (has_root s) (elems s))).
+  { apply normal_elems_forall; [repeat constructor; discriminate|constructor|].
+    apply Forall_forall. intros e He. apply In_elems_fields in He.
+    pose proof (fields_forall_bytes (fun x => x <> 0) s Hc) as FB. rewrite Forall_forall in FB. apply FB. exact He. }
+  unfold c_string, render. apply Forall_app. split.
+  - destruct (has_root s); repeat constructor. discriminate.
+  - apply join_forall_bytes; [discriminate|assumption].
+Qed.
+
+Lemma std_normal_plain : forall s, plain s = true -> plain (std_normal s) = true.
+Proof.
+  intros s Hp. destruct s as [|c s']; [reflexivity|].
+  set (s := c :: s') in *. change (std_normal s) with (render (has_root s) (normal_elems (has_root s) (elems s))).
+  destruct (plain_parts s Hp) as (_ & HB & HC & _).
+  pose proof (normal_elems_wf s) as W. pose proof (normal_elems_shape (has_root s) (elems s)) as Sh.
+  set (R := has_root s) in *. set (es' := normal_elems R (elems s)) in *.
+  set (t := render R es').
+  assert (Eel : elems t = es') by (apply elems_render; exact W).
+  assert (HP : Forall (fun e => In e (elems s) \/ e = [DOT] \/ e = []) es').
+  { apply normal_elems_forall; [right; left; reflexivity|right; right; reflexivity|].
+    apply Forall_forall. intros e He. left. exact He. }
+  rewrite Forall_forall in HP.
+  unfold plain. apply andb_true_iff. split; [apply andb_true_iff; split; [apply andb_true_iff; split|]|]; apply negb_true_iff.
+  - apply nds_not_A. apply nds_render. exact W.
+  - unfold class_B. rewrite Eel. destruct (existsb _ es') eqn:E; [|reflexivity]. exfalso.
+    apply existsb_exists in E as (e & He & Pe). destruct (HP e He) as [Hin | [-> | ->]]; [|discriminate|discriminate].
+    unfold class_B in HB. rewrite <- not_true_iff_false in HB. apply HB. apply existsb_exists. exists e. split; assumption.
+  - unfold class_C. rewrite Eel. destruct (existsb _ es') eqn:E; [|reflexivity]. exfalso.
+    apply existsb_exists in E as (e & He & Pe). destruct (HP e He) as [Hin | [-> | ->]]; [|discriminate|discriminate].
+    unfold class_C in HC. rewrite <- not_true_iff_false in HC. apply HC. apply existsb_exists. exists e. split; assumption.
+  - unfold class_D. rewrite Eel. destruct (existsb is_dotdot es') eqn:E1; [|reflexivity]. cbn [andb].
+    destruct (ends_sep_dot t) eqn:E2; [|reflexivity]. exfalso.
+    pose proof (ends_sep_dot_elem t E2) as Hd. rewrite Eel in Hd.
+    apply existsb_exists in E1 as (e & He & Pe). apply is_dotdot_eq in Pe. subst e.
+    destruct Sh as [Rr|Rr|k Rr|k names tl Hr Hne Hpn Ht].
+    + destruct Hd.
+    + destruct He as [A | []]. discriminate.
+    + apply repeat_spec in Hd. discriminate.
+    + apply in_app_or in Hd as [Hd | Hd]; [apply repeat_spec in Hd; discriminate|].
+      apply in_app_or in Hd as [Hd | Hd].
+      * rewrite forallb_forall in Hpn. specialize (Hpn _ Hd). discriminate.
+      * destruct Ht as [-> | ->]; [destruct Hd|destruct Hd as [A | []]; discriminate].
+Qed.
+
+Lemma zix_normal_idem_plain : forall s, c_string s -> Z.of_nat (length s) + 2 < W64 ->
+  Z.of_nat (length (std_normal s)) + 2 < W64 -> plain s = true ->
+  zix_normal (zix_normal s) = zix_normal s.
+Proof.
+  intros s Hc HW HW' Hp. unfold zix_normal at 2 3. rewrite (zix_normal_plain s Hc HW Hp).
+  unfold zix_normal. rewrite (zix_normal_plain _ (std_normal_c_string s Hc) HW' (std_normal_plain s Hp)).
+  apply std_normal_idem.
+Qed.
